@@ -384,7 +384,7 @@ class DerStream(runner.Stream):
     def oracle(self, req, ans):
         t = req.split(" ")
         op = t[1]
-        if ans in ("panic", "abort"):
+        if ans in ("panic", "abort", "hang"):
             return "panic instead of Ok/Err"
         a = ans.split(" ")
         if op == "ginfo":
